@@ -2,6 +2,7 @@ import RTV.Drv.Match
 import RTV.Drv.Timex
 import RTV.Drv.Factory
 import RTV.Drv.Re
+import RTV.Drv.Cal
 /-! Model driver: one operation per input line (tab-separated), one answer line per operation.
 Run compiled (`.lake/build/bin/rtvdriver`) or with `lake env lean --run Driver.lean`. -/
 open RTV.Drv
@@ -13,6 +14,7 @@ def dispatch (line : String) : String :=
       <|> dispatchFactory op args
       <|> dispatchRe op args
       <|> dispatchTimex op args
+      <|> dispatchCal op args
       -- <|> dispatchOther op args   (one alternative per layer)
       ).getD "bad-op"
   | _ => "bad-op"
